@@ -474,6 +474,9 @@ class Collections:
         if isinstance(e, ast.Subscript) and isinstance(e.slice, ast.Slice) and e.slice.lower is None and e.slice.upper is None and e.slice.step is None:
             return self._describe(e.value, depth - 1, busy)
         if isinstance(e, ast.Call):
+            ms = self._multiset_source(e)
+            if ms is not None and ms[0] == "keys":
+                return self._describe(ms[1], depth - 1, busy) if parent(ms[1]) is not None else self._describe_copy(ms[1])  # the distinct elements
             n = _call_name(e)
             if _is_empty_value(e):
                 return Desc()
@@ -977,6 +980,19 @@ class Collections:
                     src = dv
                     b = Binder(b.target, src, b.loop, b.root, b.site, b.via)
                     c.binders[idx] = b
+            # distinct elements with their multiplicity: Counter(X) / dict.fromkeys(X) iterated directly, by .keys() or by
+            # .items() - every element of X is visited (once); the count is an opaque positive number
+            ca = self._multiset_source(src)
+            if ca is not None:
+                what, inner = ca
+                if what == "items" and isinstance(b.target, (ast.Tuple, ast.List)) and len(b.target.elts) == 2:
+                    c.binders[idx] = Binder(b.target.elts[0], inner, b.loop, False, b.site, b.via)
+                    work.insert(0, c)
+                    continue
+                if what == "keys":
+                    c.binders[idx] = Binder(b.target, inner, b.loop, False, b.site, b.via)
+                    work.insert(0, c)
+                    continue
             # wrappers around the source
             if isinstance(src, ast.Call) and _call_name(src) in COPY_CALLS and len(src.args) == 1:
                 c.binders[idx] = Binder(b.target, src.args[0], b.loop, False, b.site, b.via)
@@ -1104,6 +1120,31 @@ class Collections:
                     nc_ren,
                 )
                 work.insert(0, nc)
+
+    def _multiset_source(self, src: ast.AST) -> tuple[str, ast.AST] | None:
+        """("keys" | "items", X) if `src` iterates the distinct elements of X: Counter(X), dict.fromkeys(X), their .keys() /
+        .items(), or a local bound once to one of these and never changed."""
+        fn = self.fn
+
+        def made_from(x: ast.AST, hops: int = 0) -> ast.AST | None:
+            if isinstance(x, ast.Name) and hops < 3 and (parent(x) is not None or hasattr(x, "_at")):
+                ds = fn.reaching(x.id, x)
+                if len(ds) == 1 and ds[0].kind == "assign" and ds[0].value is not None and x.id not in fn.mutated and x.id not in self.events():
+                    return made_from(ds[0].value, hops + 1)
+                return None
+            if isinstance(x, ast.Call) and len(x.args) == 1 and not x.keywords and (_call_name(x) == "Counter" or fn.lib_name(x.func) == "collections.Counter"):
+                return x.args[0]
+            if isinstance(x, ast.Call) and isinstance(x.func, ast.Attribute) and x.func.attr == "fromkeys" and isinstance(x.func.value, ast.Name) and x.func.value.id in ("dict", "OrderedDict") and x.args:
+                return x.args[0]
+            return None
+
+        if isinstance(src, ast.Call) and isinstance(src.func, ast.Attribute) and src.func.attr in ("items", "keys") and not src.args:
+            inner = made_from(src.func.value)
+            return (src.func.attr, inner) if inner is not None else None
+        if isinstance(src, ast.Call) and not isinstance(src.func, ast.Attribute) or (isinstance(src, ast.Call) and isinstance(src.func, ast.Attribute) and src.func.attr == "fromkeys"):
+            inner = made_from(src)
+            return ("keys", inner) if inner is not None else None
+        return None
 
     def _match_target(self, target: ast.AST, ci: Contribution) -> dict[str, ast.expr] | None:
         # for a, b in <named tuples built as T(x, y)>
